@@ -1194,6 +1194,9 @@ func runC01(e *Env) error {
 		// templates registered at the very start of the run on an engine of their own keep rendering the same while
 		// all these histories (and a failing or operator-rich parse in between) go by
 		guarded(func() (string, error) { return "", twig.New().RegisterString("primer", primers[i%len(primers)]) })
+		if i%5 == 0 {
+			otherEngineOverrides()
+		}
 		sentinelCheck(e)
 	}
 	r.Note(fmt.Sprintf("pristine-process comparisons left unused: %d", budget))
